@@ -48,7 +48,6 @@ Section Exec.
   Hypothesis Hq : d_quote d = 1.
   Hypothesis Ha : d_apply d = 2.
   Hypothesis Hs : d_softfork d = 36.
-  Hypothesis Hgc : forall o, d_gc d o = false.
 
   (* n iterations of the loop of run_program, none of them leaving it *)
   Fixpoint steps (n : nat) (c : N) (s : mstate) (c' : N) (s' : mstate) : Prop :=
@@ -127,6 +126,27 @@ Section Exec.
     unfold st in He. rewrite He. reflexivity.
   Qed.
 
+  (* ENABLE_GC: an operator form of a GC candidate leaves a Restore operation under its Apply;
+     on the tree store it costs nothing and changes nothing *)
+  Definition rs (o : sexp) (os : list operation) : list operation :=
+    if d_gc d o then ORestore :: os else os.
+  Definition gcn (o : sexp) : nat := if d_gc d o then 1%nat else 0%nat.
+
+  Lemma step_restore cost v vs es os : cost <= M ->
+    step d M cost (st (v :: vs) es (ORestore :: os)) = Ok (inl (cost + 0, st (v :: vs) es os)).
+  Proof.
+    intros Hc. unfold step. cbn [effective_max guards st ops vals envs].
+    replace (M <? cost) with false by lia. reflexivity.
+  Qed.
+
+  Lemma steps_rs o cost v vs es os : cost <= M ->
+    steps (gcn o) cost (st (v :: vs) es (rs o os)) cost (st (v :: vs) es os).
+  Proof.
+    intros Hc. unfold gcn, rs. destruct (d_gc d o).
+    - eapply steps_cast; [apply steps_one; apply step_restore; exact Hc|reflexivity|lia].
+    - split; reflexivity.
+  Qed.
+
   (* ---- big-step judgement ---- *)
   Definition EV (E env : sexp) (c : N) (v : sexp) (n : nat) : Prop :=
     forall vs es os cost, cost + c <= M ->
@@ -179,12 +199,17 @@ Section Exec.
 
   Lemma eval_pair_opform b l vs es os env : is_kw (Atom b) 1 = false ->
     eval_pair d (st vs es os) (Cons (Atom b) (sl l)) env =
-    Ok (OP_COST, st (nil_s :: rev l ++ Atom b :: vs) (env :: es) (repeat OSwapEval (length l) ++ OApply :: os)).
+    Ok (OP_COST, st (nil_s :: rev l ++ Atom b :: vs) (env :: es)
+                    (repeat OSwapEval (length l) ++ OApply :: rs (Atom b) os)).
   Proof.
-    intros H1. cbn [eval_pair]. unfold eval_op_atom. rewrite Hq, H1, Hgc.
-    change (push (Atom b) (push_op OApply (push_env env (st vs es os))))
-      with (st (Atom b :: vs) (env :: es) (OApply :: os)).
-    rewrite push_operands_sl. reflexivity.
+    intros H1. cbn [eval_pair]. unfold eval_op_atom. rewrite Hq, H1. unfold rs.
+    destruct (d_gc d (Atom b)).
+    - change (push (Atom b) (push_op OApply (push_env env (push_op ORestore (st vs es os)))))
+        with (st (Atom b :: vs) (env :: es) (OApply :: ORestore :: os)).
+      rewrite push_operands_sl. reflexivity.
+    - change (push (Atom b) (push_op OApply (push_env env (st vs es os))))
+        with (st (Atom b :: vs) (env :: es) (OApply :: os)).
+      rewrite push_operands_sl. reflexivity.
   Qed.
 
   (* an operator form (not q, a, softfork) *)
@@ -192,18 +217,19 @@ Section Exec.
     is_kw (Atom b) 1 = false -> is_kw (Atom b) 2 = false -> is_kw (Atom b) 36 = false ->
     EVS env (rev l) cs vl ns ->
     (forall m, cop <= m -> d_op d (Atom b) (consl vl nil_s) m OsDefault = Ok (cop, r)) ->
-    EV (Cons (Atom b) (sl l)) env (OP_COST + cs + cop) r (ns + 1).
+    EV (Cons (Atom b) (sl l)) env (OP_COST + cs + cop) r (ns + 1 + gcn (Atom b)).
   Proof.
     intros H1 H2 H36 Hargs Hop vs es os cost Hc.
-    exists OP_COST, (st (nil_s :: rev l ++ Atom b :: vs) (env :: es) (repeat OSwapEval (length l) ++ OApply :: os)).
+    exists OP_COST, (st (nil_s :: rev l ++ Atom b :: vs) (env :: es)
+                       (repeat OSwapEval (length l) ++ OApply :: rs (Atom b) os)).
     split; [apply eval_pair_opform; exact H1|].
-    pose proof (evs_run _ _ _ _ _ Hargs nil_s (Atom b :: vs) es (OApply :: os) (cost + OP_COST) ltac:(lia)) as Hst.
+    pose proof (evs_run _ _ _ _ _ Hargs nil_s (Atom b :: vs) es (OApply :: rs (Atom b) os) (cost + OP_COST) ltac:(lia)) as Hst.
     rewrite rev_length in Hst.
     eapply steps_cast.
     - eapply steps_trans; [exact Hst|].
-      apply steps_one. apply step_apply_op; [lia|exact H2|exact H36|].
-      apply Hop. lia.
-    - reflexivity.
+      eapply steps_trans; [apply steps_one; apply step_apply_op; [lia|exact H2|exact H36|apply Hop; lia]|].
+      apply steps_rs. lia.
+    - lia.
     - lia.
   Qed.
 
@@ -211,18 +237,20 @@ Section Exec.
   Lemma EV_apply P E env cs vP vE ns cb r nb :
     EVS env [E; P] cs [vE; vP] ns ->
     EV vP vE cb r nb ->
-    EV (sl [Atom [2]; P; E]) env (OP_COST + cs + APPLY_COST + cb) r (ns + 1 + nb).
+    EV (sl [Atom [2]; P; E]) env (OP_COST + cs + APPLY_COST + cb) r (ns + 1 + nb + gcn (Atom [2])).
   Proof.
     intros Hargs Hbody vs es os cost Hc.
     change (sl [Atom [2]; P; E]) with (Cons (Atom [2]) (sl [P; E])).
-    exists OP_COST, (st (nil_s :: rev [P; E] ++ Atom [2] :: vs) (env :: es) (repeat OSwapEval (length [P; E]) ++ OApply :: os)).
+    exists OP_COST, (st (nil_s :: rev [P; E] ++ Atom [2] :: vs) (env :: es)
+                       (repeat OSwapEval (length [P; E]) ++ OApply :: rs (Atom [2]) os)).
     split; [apply eval_pair_opform; reflexivity|].
-    pose proof (evs_run _ _ _ _ _ Hargs nil_s (Atom [2] :: vs) es (OApply :: os) (cost + OP_COST) ltac:(lia)) as Hst.
-    destruct (Hbody vs es os (cost + OP_COST + cs + APPLY_COST) ltac:(lia)) as (c0 & s0 & He & Hb).
+    pose proof (evs_run _ _ _ _ _ Hargs nil_s (Atom [2] :: vs) es (OApply :: rs (Atom [2]) os) (cost + OP_COST) ltac:(lia)) as Hst.
+    destruct (Hbody vs es (rs (Atom [2]) os) (cost + OP_COST + cs + APPLY_COST) ltac:(lia)) as (c0 & s0 & He & Hb).
     eapply steps_cast.
     - eapply steps_trans; [exact Hst|].
       eapply steps_trans; [apply steps_one; apply (step_apply_a _ vP vE); [lia|exact He]|].
-      eapply steps_cast0; [exact Hb|lia].
+      eapply steps_trans; [eapply steps_cast0; [exact Hb|lia]|].
+      apply steps_rs. lia.
     - lia.
     - lia.
   Qed.
@@ -232,7 +260,7 @@ Section Exec.
     is_kw (Atom b) 1 = false -> is_kw (Atom b) 2 = false -> is_kw (Atom b) 36 = false ->
     EV a1 env c1 v1 n1 ->
     (forall m, cop <= m -> d_op d (Atom b) (sl [v1]) m OsDefault = Ok (cop, r)) ->
-    EV (sl [Atom b; a1]) env (OP_COST + c1 + cop) r (n1 + 3).
+    EV (sl [Atom b; a1]) env (OP_COST + c1 + cop) r (n1 + 3 + gcn (Atom b)).
   Proof.
     intros K1 K2 K36 E1 Hop.
     eapply EV_cast; [eapply (EV_op b [a1] env); [exact K1|exact K2|exact K36|..]|..].
@@ -246,7 +274,7 @@ Section Exec.
     is_kw (Atom b) 1 = false -> is_kw (Atom b) 2 = false -> is_kw (Atom b) 36 = false ->
     EV a1 env c1 v1 n1 -> EV a2 env c2 v2 n2 ->
     (forall m, cop <= m -> d_op d (Atom b) (sl [v1; v2]) m OsDefault = Ok (cop, r)) ->
-    EV (sl [Atom b; a1; a2]) env (OP_COST + c1 + c2 + cop) r (n1 + n2 + 5).
+    EV (sl [Atom b; a1; a2]) env (OP_COST + c1 + c2 + cop) r (n1 + n2 + 5 + gcn (Atom b)).
   Proof.
     intros K1 K2 K36 E1 E2 Hop.
     eapply EV_cast; [eapply (EV_op b [a1; a2] env); [exact K1|exact K2|exact K36|..]|..].
@@ -260,7 +288,7 @@ Section Exec.
     is_kw (Atom b) 1 = false -> is_kw (Atom b) 2 = false -> is_kw (Atom b) 36 = false ->
     EV a1 env c1 v1 n1 -> EV a2 env c2 v2 n2 -> EV a3 env c3 v3 n3 ->
     (forall m, cop <= m -> d_op d (Atom b) (sl [v1; v2; v3]) m OsDefault = Ok (cop, r)) ->
-    EV (sl [Atom b; a1; a2; a3]) env (OP_COST + c1 + c2 + c3 + cop) r (n1 + n2 + n3 + 7).
+    EV (sl [Atom b; a1; a2; a3]) env (OP_COST + c1 + c2 + c3 + cop) r (n1 + n2 + n3 + 7 + gcn (Atom b)).
   Proof.
     intros K1 K2 K36 E1 E2 E3 Hop.
     eapply EV_cast; [eapply (EV_op b [a1; a2; a3] env); [exact K1|exact K2|exact K36|..]|..].
@@ -273,7 +301,7 @@ Section Exec.
 
   Lemma EV_apply2 P E env cP vP nP cE vE nE cb r nb :
     EV P env cP vP nP -> EV E env cE vE nE -> EV vP vE cb r nb ->
-    EV (sl [Atom [2]; P; E]) env (OP_COST + cP + cE + APPLY_COST + cb) r (nP + nE + 5 + nb).
+    EV (sl [Atom [2]; P; E]) env (OP_COST + cP + cE + APPLY_COST + cb) r (nP + nE + 5 + nb + gcn (Atom [2])).
   Proof.
     intros EP EE EB.
     eapply EV_cast; [eapply EV_apply; [|exact EB]|..].
